@@ -278,6 +278,11 @@ fn op_keygen<H: HashChain + 'static>(d: &mut Driver, cmd: &Value) {
     let alg = cmd["alg"].as_str().unwrap().to_string();
     let params_json = cmd["params"].as_array().unwrap().clone();
     let seed_bytes = d.bytes(&cmd["seed"]);
+    let seed_tail: Option<Vec<u8>> = cmd.get("seed_tail").map(|t| {
+        let mut v = d.bytes(t);
+        v.resize(32, 0x5a);
+        v
+    });
     let aux_in: Option<Vec<u8>> = if cmd.get("aux").map_or(true, |a| a.is_null()) {
         None
     } else {
@@ -293,8 +298,22 @@ fn op_keygen<H: HashChain + 'static>(d: &mut Driver, cmd: &Value) {
             .iter()
             .map(|p| HssParameter::new(w_of(p[0].as_u64().unwrap()), h_of(p[1].as_u64().unwrap())))
             .collect();
-        let mut seed = Seed::<H>::default();
-        seed.as_mut_slice().copy_from_slice(&seed_bytes);
+        // Seed<H> always owns 32 bytes; only the first n are the seed. With "seed_tail" the value is
+        // built through `From<[u8; 32]>` with the given bytes behind the seed.
+        let seed = match &seed_tail {
+            Some(tail) => {
+                let mut full = [0u8; 32];
+                full[..seed_bytes.len()].copy_from_slice(&seed_bytes);
+                let room = 32 - seed_bytes.len();
+                full[seed_bytes.len()..].copy_from_slice(&tail[..room]);
+                Seed::<H>::from(full)
+            }
+            None => {
+                let mut seed = Seed::<H>::default();
+                seed.as_mut_slice().copy_from_slice(&seed_bytes);
+                seed
+            }
+        };
         let res = if aux_in.is_some() {
             let aux_slice: &mut &mut [u8] = &mut &mut aux_buf[..];
             let r = hbs_lms::keygen::<H>(&params, &seed, Some(aux_slice));
@@ -311,6 +330,9 @@ fn op_keygen<H: HashChain + 'static>(d: &mut Driver, cmd: &Value) {
     ev.insert("alg".into(), json!(alg));
     ev.insert("params".into(), Value::Array(params_json));
     ev.insert("seed".into(), json!(hex(&seed_bytes)));
+    if let Some(t) = &seed_tail {
+        ev.insert("seed_tail".into(), json!(hex(&t[..32 - seed_bytes.len().min(32)])));
+    }
     ev.insert("has_aux".into(), json!(aux_in.is_some()));
     ev.insert("aux_in".into(), json!(aux_in.as_deref().map(hex).unwrap_or_default()));
     ev.insert("res".into(), json!(res_str(&r)));
